@@ -1058,6 +1058,9 @@ impl<RW: QueueRW<T>, T> Drop for MultiQueue<RW, T> {
                 }
             }
         }
+        // the payloads are gone; hand back the ring and the pin table themselves
+        alloc::deallocate(self.data, self.capacity as usize);
+        alloc::deallocate(self.refs, self.capacity as usize);
     }
 }
 
